@@ -132,7 +132,8 @@ func (e *upgEp) block(dt time.Duration, mid func(ctx sdk.Context)) bool {
 func (e *upgEp) schedule(ctx sdk.Context, name string, at int64, instate, skip bool) {
 	content := upgradetypes.NewSoftwareUpgradeProposal(name, []upgradetypes.Resource{{Id: "kira", Url: "u", Version: "v", Checksum: "c"}}, at, chainID, "verif-2", "memo", 600, "up", instate, false, skip)
 	h := upgrade.NewApplySoftwareUpgradeProposalHandler(e.w.app.UpgradeKeeper)
-	err := withCache(ctx, func(c sdk.Context) error { return h.Apply(c, e.pid, content, sdk.ZeroDec()) })
+	_ = h
+	err := e.w.Enact(ctx, e.pid, content)
 	out := "ok"
 	if err != nil {
 		out = "err"
